@@ -335,7 +335,10 @@ _ID_LATIN = ['naïve', 'über', 'café', 'señor', 'Ærø', 'ĉapelo']
 _ID_CYR = ['таблица', 'ключ', 'имя', 'Значение']
 _ID_CJK = ['表', '列名', '数据', 'ユーザー', '値']
 _ID_ASCII = ['a', 'b', 'col1', 't', 'users', 'order_id', 'x_y', 'T2']
-_ID_L1 = ['naïve', 'über', 'café', 'señor', 'Ærø', 'ñu', 'façade']
+# incl. names whose Latin-1 bytes contain well-formed UTF-8 sequences
+# (an upper-case accented letter followed by a character from U+0080-U+00BF)
+_ID_L1 = ['naïve', 'über', 'café', 'señor', 'Ærø', 'ñu', 'façade', 'Â°C',
+          'É»x', 'Ã©tÃ©']
 _KW = ['select', 'SELECT', 'Select']
 
 
@@ -360,7 +363,7 @@ def _literal(rng, script, backslash):
     if r < 0.4:
         return '%d.%d' % (rng.randrange(100), rng.randrange(100))
     pool = {'ascii': ['x', 'abc'], 'latin': ['café', 'Zoë'],
-            'l1': ['café', 'Zoë', '½ £'],
+            'l1': ['café', 'Zoë', '½ £', 'Â°C Ã©', '«¿QUÉ» Ñ¿', 'Ð½ Ã¤'],
             'cyr': ['строка', 'Ёж'], 'cjk': ['文字列', 'テスト']}[script]
     body = pool[rng.randrange(len(pool))]
     if backslash and rng.random() < 0.6:
